@@ -488,8 +488,41 @@ impl Ranking {
         }
         let limit = *cx.rng.pick(&[n, n + 1, 10.max(n / 10 + 1), (n + 9) / 10, n.max(3) / 3 + 1]);
         let limit = limit.max((n + 9) / 10); // |store| <= 10*limit
-        let staged = cx.rng.chance(1, 4);
-        let st = if staged { build_staged(cx, lang, &recs, limit, "") } else { St::build_sentinel(lang, &recs, limit) };
+        let mut staged = cx.rng.chance(1, 4);
+        let mut recs = recs;
+        let mut limit = limit;
+        let mut planted: Option<String> = None;
+        let mut planted_store: Option<St> = None;
+        if cx.rng.chance(1, 20) {
+            // a store whose past contains a search that more records shared grams with than its limit then let through,
+            // and, left out of that search, a short word which the judged query spells with its first two letters swapped
+            // (a fuzzy match that shares no gram): 11-25 "PQx." words, the word "PQcd", and "QPcde"
+            let alpha = gen::lower_alphabet(lang);
+            let (p, q) = (alpha[cx.rng.below(alpha.len())], alpha[cx.rng.below(alpha.len())]);
+            let rest: Vec<char> = alpha.iter().cloned().filter(|c| *c != p && *c != q).collect();
+            if p != q && rest.len() >= 6 {
+                let (x, c, d, e) = (rest[0], rest[1], rest[2], rest[3]);
+                let nf = cx.rng.range(11, 25);
+                recs = (0..nf).map(|i| (3000 + i, s(&[p, q, x, rest[4 + i % (rest.len() - 4)]]), 5 * i + 3)).collect();
+                recs.push((1, s(&[p, q, c, d]), 1));
+                recs.push((2, s(&[q, p, c, d, e]), 2));
+                cx.rng.shuffle(&mut recs);
+                limit = (recs.len() + 9) / 10;
+                let mut st0 = St::sentinel(lang, 1);
+                for r in &recs {
+                    st0.add(r);
+                }
+                let _ = st0.search(&s(&[p, q, x]));
+                st0.store.limit = limit;
+                planted = Some(s(&[q, p, c, d]));
+                staged = false;
+                cx.count("stores whose past holds an over-cap search that left a gram-free fuzzy match behind");
+                // (this store replaces the plain one below)
+                planted_store = Some(st0);
+            }
+        }
+        let n = recs.len();
+        let st = if let Some(st0) = planted_store.take() { st0 } else if staged { build_staged(cx, lang, &recs, limit, "") } else { St::build_sentinel(lang, &recs, limit) };
         let unl = St::build_sentinel(lang, &recs, n + 1);
         let other: Option<St> = if cx.rng.chance(1, 3) {
             cx.count("stores shadowed by a store of another language on the same thread");
@@ -503,6 +536,8 @@ impl Ranking {
             // spelling with the first two letters swapped (it matches short words without sharing a gram with them)
             let q = if staged && qk == 0 {
                 String::new()
+            } else if let (Some(pq), true) = (&planted, qk <= 1) {
+                pq.clone()
             } else if staged && qk == 1 {
                 let mut w: Vec<char> = recs[cx.rng.below(recs.len())].1.split(|c: char| !c.is_alphanumeric()).next().unwrap_or("ab").chars().collect();
                 if w.len() >= 2 {
@@ -1052,7 +1087,7 @@ impl Prop for Ranking {
     fn floors(&self) -> Vec<(&'static str, u64, u64)> {
         match self.0 {
             Which::Verdicts => vec![("truncated (more matches than limit)", 200, 2000), ("beyond the 10x cap (soundness only)", 100, 1000), ("limit 0", 50, 500), ("selection buffer refilled (matches >= 2*limit)", 100, 1000), ("store with tied ratings (set comparison)", 50, 500), ("empty query", 50, 500), ("corpus-store searches", 100, 2000), ("corpus-store searches compared with the unlimited corpus store", 10, 200), ("large stores (limit 50-200)", 400, 8000), ("large stores whose match count is an exact multiple of the limit", 20, 400), ("stores of more than 2048 records", 8, 160), ("stores of 66-260 records", 300, 3000), ("stores built in stages with searches and limit changes in between", 3000, 30000), ("configurations whose reference stores live on threads of their own", 1500, 15000), ("stores of 33 000 - 140 000 records with one title", 8, 48), ("stores of exactly 10*limit records sharing one word", 100, 1000)],
-            Which::Order => vec![("pair stores", 2000, 20000), ("permuted stores", 2000, 20000), ("searches with >= 2 hits", 300, 3000), ("truncated lists compared across permutations", 30, 300), ("stores of similar words", 500, 5000), ("pairs involving a hit ranked 7th or lower", 300, 3000), ("large stores (limit 50-200)", 200, 4000), ("stores of more than 2048 records", 4, 80), ("stores with ratings in [2^31, 2^32)", 200, 2000), ("stores with ratings spread over the whole usize range", 100, 1000), ("configurations whose reference stores live on threads of their own", 200, 2000), ("stores built in stages with searches and limit changes in between", 300, 3000), ("stores shadowed by a store of another language on the same thread", 500, 5000)],
+            Which::Order => vec![("pair stores", 2000, 20000), ("permuted stores", 2000, 20000), ("searches with >= 2 hits", 300, 3000), ("truncated lists compared across permutations", 30, 300), ("stores of similar words", 500, 5000), ("pairs involving a hit ranked 7th or lower", 300, 3000), ("large stores (limit 50-200)", 200, 4000), ("stores of more than 2048 records", 4, 80), ("stores with ratings in [2^31, 2^32)", 200, 2000), ("stores with ratings spread over the whole usize range", 100, 1000), ("configurations whose reference stores live on threads of their own", 200, 2000), ("stores built in stages with searches and limit changes in between", 300, 3000), ("stores shadowed by a store of another language on the same thread", 500, 5000), ("stores whose past holds an over-cap search that left a gram-free fuzzy match behind", 50, 500)],
             Which::Rules => vec![("rule exact>typo", 500, 5000), ("rule both>one", 500, 5000), ("rule prefix: exact>tail", 500, 5000), ("rule adjacent>gap", 500, 5000), ("rule first>second", 500, 5000), ("rule identical titles: rating decides", 300, 3000), ("rule equal rating: shorter title first", 300, 3000), ("rule function word: content word first", 1000, 10000), ("u made of two function words run together", 300, 3000), ("rule cases with a third, unrelated record", 20000, 200000), ("identical titles with ratings 1-3 apart", 1000, 10000), ("tails of 13-70 letters", 500, 5000), ("u tagged with a part of speech that is not a function-word kind", 150, 1500), ("rule cases on stores with several copies of both titles", 5000, 50000)],
             Which::Empty => vec![("searches after further adds", 1000, 10000), ("truncated lists with tied ratings", 500, 5000), ("stores with distinct ratings", 500, 5000), ("limit 0", 100, 1000), ("stores of 13-60 records", 1000, 10000), ("stores whose titles share a prefix of 20-40 characters", 1500, 15000), ("stores with adjacent ratings above 2^24", 1000, 10000), ("searches after a limit change", 1000, 10000), ("adds under a temporarily lowered limit", 1000, 10000), ("empty-query searches right after a search with words", 5000, 50000)],
         }
